@@ -174,10 +174,17 @@ CHECKS = {
         "the same text/length when every byte after the instruction is inverted. Same enumeration as C07 (all 68 CPUs, "
         "exhaustive over the leading 16 bits in the thorough tier); TLC accepts each recorded decode.",
    design_ref="DESIGN.md 4 C08",
-   note="The range-walk half of the property (naken_util -disasm address column) is not checked in this revision; "
-        "MaxLenOf: documented maxima, 16 where unknown, unbounded for java/dotnet/webasm.",
-   technique="TLA+ totality/locality predicates; exhaustive leading-word enumeration through the real decoders; "
-             "TLC trace acceptor"),
+   note="Range half: Tiling.tla states the walk (every address line starts the next instruction exactly where the previous "
+        "one ended, or is a continuation line inside it; the walk reaches the end of the range) and MCTiling checks the loop "
+        "against it for every decoder-length function over a small range; the real naken_util -<cpu> -bin [-address A] "
+        "-disasm | -disasm_range a-b runs on 4 (thorough 24) byte files per CPU (zeros, ones, pattern bytes; start 0, 0x100, "
+        "0xfff0 across a page boundary; whole image and sub-ranges ending inside an instruction), its address column is "
+        "lexed and TLC accepts it against the lengths the real single-instruction decoder returns at every unit. "
+        "ps2_ee_vu0/vu1 are not walked (pairs vs halves). MaxLenOf: documented maxima, 16 where unknown, unbounded for "
+        "java/dotnet/webasm.",
+   technique="TLA+ totality/locality predicates and a TLA+ tiling specification of the range walk (model-checked); "
+             "exhaustive leading-word enumeration through the real decoders and range walks of the real naken_util; "
+             "TLC trace acceptors"),
  "C09": dict(
    category="model_checking",
    text="MacroExpand!Expand performs .define/equ/.macro/.repeat substitution by hand on abstract programs; the meaning of P "
